@@ -121,8 +121,11 @@ def case_features(c, r):
     return f
 
 
-def flexalg_k(rep, pid, binp, seed, n, timeout=600):
-    """Generate n cases, evaluate the resumption, compare.  Returns a dict of counts (also stored in rep.cov)."""
+def flexalg_k(rep, pid, binp, seed, n, timeout=600, payload_is_broken=True):
+    """Generate n cases, evaluate the resumption, compare.  Returns a dict of counts (also stored in rep.cov).
+    A STRUCTURAL disagreement is always a broken correspondence.  A payload-only disagreement (same events, some f32 differs) is a broken
+    correspondence for the property that owns the flex arithmetic (C07: payload_is_broken=True); for C05 / C06 -- whose theorems about
+    the resumption use no arithmetic fact -- it is counted and logged (`payload_only_disagreements`) but does not fail the check."""
     rc, out = vh(binp, ['flexalg', 'cases', seed, n], timeout=300)
     if rc != 0:
         rep.add_broken('correspondence', 'vh flexalg cases', out[-800:])
@@ -133,6 +136,12 @@ def flexalg_k(rep, pid, binp, seed, n, timeout=600):
     if not done or xchk:
         rep.add_broken('correspondence', 'flexalg harness: hook trace vs recording', (xchk[:3] or out[-300:]))
         return None
+    # the runner is a dependency of Props/C05.vo and Props/C06.vo, not of Props/C07.vo: make sure it is built
+    with Lock('coq'):
+        rcm, outm, _ = coq_make(['Model/FlexAlgRun.vo'])
+    if rcm != 0:
+        rep.add_broken('correspondence', 'flex resumption K (building Model/FlexAlgRun.v)', outm[-1500:])
+        return None
     try:
         model = run_model('flexalg_%s' % pid, IMPORTS, 'run_case', cases, scope='Z', elem='list Z', timeout=timeout)
     except RuntimeError as ex:
@@ -142,6 +151,7 @@ def flexalg_k(rep, pid, binp, seed, n, timeout=600):
     feats = {}
     distinct = set()
     reported = 0
+    npay_logged = 0
     for c, a, b in zip(cases, impl, model):
         s_ok, e_ok, msg = compare(a, b)
         nstruct += s_ok
@@ -150,12 +160,16 @@ def flexalg_k(rep, pid, binp, seed, n, timeout=600):
             feats[f] = feats.get(f, 0) + 1
         if len(events(a)) > 1:
             distinct.add(tuple(c))
-        if not e_ok and reported < 4:
+        if not e_ok and (payload_is_broken or not s_ok) and reported < 4:
             reported += 1
             rep.add_broken('correspondence', 'flex resumption K (%s)' % ('payload' if s_ok else 'event structure'),
                            {'what': msg, 'case': c, 'impl': a, 'model': b})
+        elif not e_ok and s_ok and not payload_is_broken and npay_logged < 2:
+            npay_logged += 1
+            log('[%s] flex resumption K: payload-only disagreement (reported by ./check C07): %s' % (pid, msg[:300]))
     rep.cov['evaluations'] = rep.cov.get('evaluations', 0) + len(cases)
     res = {'cases': len(cases), 'skipped_panics': int(done.group(2)), 'structure_agrees': nstruct, 'bit_exact': nexact,
+           'payload_only_disagreements': nstruct - nexact, 'payload_disagreement_fails_this_check': payload_is_broken,
            'compute_size_cases': int(done.group(4)), 'compute_size_cases_with_a_PerformLayout_query': int(done.group(5)),
            'features': feats, 'distinct_with_child_traffic': len(distinct)}
     rep.cov['flexalg_k'] = res
